@@ -196,6 +196,34 @@ def check_case(case, rec):
         spread = float(np.max(opd[ok]) - np.min(opd[ok]))
         rec.check('equal-optical-paths', spread <= 1e-9 * max(f, float(np.max(np.abs(opd[ok])))), resid=spread, tol=1e-9 * f,
                   msg=f'{fam}: optical paths to the image differ by {spread:.3e}')
+        # the same bundle written by hand (RealRays through SurfaceGroup.trace), with the arrays a caller would naturally
+        # share: one zeros array for both transverse direction cosines of a collimated bundle, or for both transverse
+        # coordinates of an axial point source
+        from optiland.rays import RealRays
+        n0 = sg.x.shape[1]
+        zer = np.zeros(n0)
+        x0, y0, z0 = sg.x[0].copy(), sg.y[0].copy(), sg.z[0].copy()
+        L0, M0, N0 = sg.L[0].copy(), sg.M[0].copy(), sg.N[0].copy()
+        if not (np.any(L0) or np.any(M0)):
+            L0 = M0 = zer
+            rec.cls('hand-made-bundle-shared-direction-zeros')
+        if not (np.any(x0) or np.any(y0)):
+            x0 = y0 = zer
+            rec.cls('hand-made-bundle-shared-position-zeros')
+        hb = RealRays(x0, y0, z0, L0, M0, N0, np.ones(n0), np.full(n0, wl))
+        lens.surface_group.trace(hb)
+        xh, yh, zh, oh = sg.x[-1], sg.y[-1], sg.z[-1], sg.opd[-1]
+        okh = np.isfinite(xh) & np.isfinite(yh) & np.isfinite(oh)
+        dh = np.sqrt((xh[okh] - img[0]) ** 2 + (yh[okh] - img[1]) ** 2 + (zh[okh] - img[2]) ** 2) if okh.any() else np.array([np.inf])
+        rec.check('rays-meet-image-point', bool(okh.sum() == ok.sum() and np.all(dh <= 1e-9 * f)), resid=float(np.max(dh)), tol=1e-9 * f,
+                  key='rays-meet-image-point:hand-made-bundle',
+                  msg=f'{fam}: a ray of the hand-made RealRays bundle misses the image point by {np.max(dh):.3e} '
+                      f'({int(okh.sum())} of {int(ok.sum())} rays arrive)')
+        if okh.any():
+            sph = float(np.max(oh[okh]) - np.min(oh[okh]))
+            rec.check('equal-optical-paths', sph <= 1e-9 * max(f, float(np.max(np.abs(oh[okh])))), resid=sph, tol=1e-9 * f,
+                      key='equal-optical-paths:hand-made-bundle',
+                      msg=f'{fam}: optical paths of the hand-made RealRays bundle differ by {sph:.3e}')
         if ok.all():
             from optiland.wavefront import Wavefront
             wf = Wavefront(lens, fields=[(0.0, 0.0)], wavelengths=[wl], num_rays=case['rings'], distribution='hexapolar')
